@@ -136,14 +136,14 @@ def run_topo(n, idx, tier, res, only=None):
     topo = topos(n)[idx]
     fam_n, n = n, topo.n  # fam_n addresses the topology list (replay), n is the class count from here on
     depths = DEPTHS[tier]
-    for style in ("future", "eager", "nested", "td", "nt", "init-future"):
+    for style in ("future", "eager", "nested", "td", "nt", "init-future", "call"):
         extra_style = style not in ("future", "eager")
         if extra_style and n > 2:
             continue
         if extra_style and tier == "quick" and sum(len(ls) for ls in topo.links) > 2:
             continue  # quick: the extra class styles only on the topologies with at most two links
         flavour = style if style in ("td", "nt") else "init" if style.startswith("init") else "dc"
-        src = topo.source(style in ("future", "init-future"), nested=(style == "nested"), flavour=flavour)
+        src = topo.source(style in ("future", "init-future", "call"), nested=(style == "nested"), flavour=flavour, callable_=(style == "call"))
         for node in range(n):
             for form in cycles.ROOT_FORMS:
                 if only is not None and (style, node, form) != tuple(only):
